@@ -350,12 +350,14 @@ func (gen *generator) irAttrGroupDef(new *ir.AttrGroupDef, oldDefs []*ast.AttrGr
 	present := make(map[string]bool)
 	for _, oldDef := range oldDefs {
 		for _, oldFuncAttr := range oldDef.FuncAttrs() {
-			lit := oldFuncAttr.LlvmNode().Text()
+			// Note: identify attributes by their printed form rather than their
+			// spelling in the input (e.g. `"k"="v"` and `"k" = "v"`).
+			funcAttr := gen.irFuncAttribute(oldFuncAttr)
+			lit := funcAttr.String()
 			if present[lit] {
 				// skip duplicate attribute.
 				continue
 			}
-			funcAttr := gen.irFuncAttribute(oldFuncAttr)
 			new.FuncAttrs = append(new.FuncAttrs, funcAttr)
 			present[lit] = true
 		}
